@@ -19,6 +19,7 @@ import contextlib
 
 import warnings
 warnings.filterwarnings("ignore", category=DeprecationWarning)
+warnings.showwarning = lambda *a, **k: None   # the 'deprecated' package re-enables its warnings; the checks call deprecated API on purpose
 os.environ.setdefault("PYTHONWARNINGS", "ignore::DeprecationWarning")
 
 REPO_SRC = os.environ.get("PYVC_REPO_SRC", "/repo/src")
